@@ -1,5 +1,26 @@
 (* C02: the wire encoder model (Model/WireOut.v) round-trips through the independent
-   reference parser (Model/Rfc1035.v). *)
+   reference parser (Model/Rfc1035.v).
+
+   Status: both target theorems are proved as stated, for the general multi-packet case
+   (no `_partial` variants, no counterexample found against the model as written):
+     encode_total     : wf_out m -> exists pkts, to_packets m = Ok pkts
+     encode_roundtrip : wf_out m -> fits m -> to_packets m = Ok pkts -> chk_C02 m pkts = true
+   Main intermediate results: write_labels_correct, write_record_correct,
+   put_answers_props / put_auths_props / put_addls_props, finish_parse.
+
+   Proof plan
+   1. The reference reader is stable under appended bytes (run_app, ref_name_app, ...,
+      ref_records_stable) and consumes >= 1 / 5 / 11 bytes per name / question / record.
+   2. write_labels is re-expressed through `enc`, a writer consulting a FIXED table
+      (write_labels_enc): entries created while writing a name have strictly longer keys
+      than the remaining labels, so they can never be hit by the same name.
+   3. Table invariant `tbl_ok t d` (every entry lies inside d and reads back, by the reference
+      reader, to its key); preserved by appending bytes, by writing names, by rollback.
+   4. write_record's bytes parse with ref_record to `view_rr`.
+   5. A packet under construction is `h ++ body` for an ARBITRARY 12-byte h (PINV/OPEN);
+      finish_parse instantiates h with the real header.
+   6. put_addls with the TC continuation: induction producing `GOOD`, the packet-list form
+      of chk_C02. *)
 From Coq Require Import List NArith ZArith Bool Lia Arith PeanoNat.
 From Coq Require Import ZifyBool ZifyNat ZifyN.
 From Mdns Require Import Res Bytes Utf8 Rec Wire WireOut Rfc1035 C02Spec.
@@ -41,7 +62,7 @@ Proof. reflexivity. Qed.
 Lemma to_nat_blen a : N.to_nat (blen a) = length a.
 Proof. unfold blen. apply Nat2N.id. Qed.
 
-Global Hint Rewrite blen_app blen_cons blen_nil blen_u16 blen_u32 : blen.
+Local Hint Rewrite blen_app blen_cons blen_nil blen_u16 blen_u32 : blen.
 
 Ltac blen_norm := autorewrite with blen in *.
 
@@ -441,7 +462,7 @@ Qed.
 (* Fixed-width fields: what was written is what is read                                  *)
 (* ------------------------------------------------------------------------------------ *)
 
-Ltac Zify.zify_post_hook ::= Z.div_mod_to_equations.
+Local Ltac Zify.zify_post_hook ::= Z.div_mod_to_equations.
 
 Lemma u16_join v : v < 65536 -> (v / 256) mod 256 * 256 + v mod 256 = v.
 Proof. intros H. lia. Qed.
